@@ -53,14 +53,15 @@ def c19_substitution_branch_symbolic_bounds(c, k):
 
 @matcher('c19_normalize_splits_root_of_product')
 def c19_normalize_splits_root_of_product(c, k):
-    """poly.normalize distributes a square root over the factors of a product or quotient without knowing their signs
-    (sqrt(-4 * x * a) -> 2 * sqrt(x) * sqrt(-a), sqrt((a - 1) * x) -> sqrt(x) * sqrt(a - 1), sqrt((x / x) ^ (-1)) -> sqrt(x) / sqrt(x)):
-    the result has no real value where two factors are negative although the input has one.  Covered: loss of definedness by
-    normalisation in which the result contains more square roots than the input (a root was split)."""
+    """poly.normalize manipulates square roots of products, quotients and powers without knowing the signs of the factors
+    (sqrt(-4 * x * a) -> 2 * sqrt(x) * sqrt(-a), sqrt((a - 1) * x) -> sqrt(x) * sqrt(a - 1), sqrt(x / -1 * (x / x)) -> -abs(x) / sqrt(x)):
+    the result has no real value at points where the input has one.  Covered: loss of definedness by normalisation where both the
+    input and the result contain a square root / half-integer power.  Loss of definedness without roots is not covered."""
     if c.get('kind') != 'step-loses-definedness:normalize':
         return False
-    roots = lambda t: t.count('sqrt(') + t.count('^ (1/2)') + t.count('^ (-1/2)')
-    return roots(str(c.get('after', ''))) > roots(str(c.get('before', '')))
+    import re
+    root = lambda t: ('sqrt(' in t) or re.search(r'\^ \(-?[0-9]+/2\)', t) is not None
+    return root(str(c.get('before', ''))) and root(str(c.get('after', '')))
 
 
 @matcher('c19_normalize_needs_second_round')
